@@ -9,7 +9,7 @@ CLAIM = {
          "command, packet arrival, or expiry sweep at a symbolic instant) is applied both to the switch and to a reference OpenFlow 1.0 table. On "
          "every path z3 proves equal entry sets (priority, match, timeouts, flags, actions, counters, clocks), sortedness by effective priority, and "
          "that the messages sent are exactly the specified flow_removed / error messages."
-         " Also: scripted histories of 4-6 operations with symbolic arguments compared after every operation (O2_sequences), one of them with a tag-stripping entry (counters count received bytes).",
+         " Also: scripted histories of 4-6 operations with symbolic arguments compared after every operation (O2_sequences), one of them with a tag-stripping entry (counters count received bytes). The quick tier includes two-entry pre-states of an exact-match and a wildcarded entry followed by strict commands.",
  'note': "Trusted: CPython, z3, symx proxies/shims, the reference table in props/C04.py. Integer-valued virtual clock (float rounding in "
          "duration fields is outside the claim). Matches are drawn from a 5-member family over in_port / dl_vlan / exact-TCP with symbolic values.",
 }
